@@ -340,6 +340,7 @@ static void build_groups(void)
         add_group(F_BLOB, bits, -1, V_TRUNC, M_RANGE, 0, RK[ki].derlen / 2);
         add_group(F_BLOB, bits, -1, V_TRUNC, M_RANGE, RK[ki].derlen / 2, RK[ki].derlen + 1);
         add_group(F_POS, bits, -1, V_RSAENC, M_RANGE, 0, rsa_lens_n);
+        add_group(F_POS, bits, -1, V_RSALONG, M_RANGE, 0, 18);
         add_group(F_POS, bits, -1, V_RSADEC, M_RANGE, 0, rsa_lens_n);
         add_group(F_POS, bits, -1, V_RSADEC, M_RANGE, 100, C_END);
         for (h = 0; h < H_N; h++)
